@@ -363,18 +363,17 @@ type delStats struct {
 	prefixKept  []string // series hit by the signature of known finding delete-index-prefix-series-kept
 }
 
-// prefixPairInMatch reports the signature of known finding delete-series-key-prefix-order: the
-// delete matches a series key A while some series B = A + c + ... with c < '#' (matched or not)
-// has ever been written to a shard that also received A — the TSM index orders B's keys before
-// A's ("A!#!~#f" < "A#!~#f") while the sorted series keys order A before B.
+// prefixPairInMatch reports the signature of known finding delete-series-key-prefix-order: some
+// shard has received two series keys A and B = A + c + ... with c < '#', and the delete matches A or
+// B. The TSM index orders B's keys before A's ("A!#!~#f" < "A#!~#f") while deleteSeriesRange
+// assumes series-key order (A < B) in its file-overlap test (tsmMax series >= min series key: fails
+// when only B is matched and A is the file's last key), in its delete walk and in its index
+// reconciliation walk (both skip A once they have seen B).
 func (mc *machine) prefixPairInMatch(p pred) bool {
 	all := mc.m.SeriesKeys()
 	for _, a := range all {
-		if !p.matches(a) {
-			continue
-		}
 		for _, b := range all {
-			if len(b) > len(a) && strings.HasPrefix(b, a) && b[len(a)] < '#' && mc.shareShard(a, b) {
+			if len(b) > len(a) && strings.HasPrefix(b, a) && b[len(a)] < '#' && (p.matches(a) || p.matches(b)) && mc.shareShard(a, b) {
 				return true
 			}
 		}
@@ -830,7 +829,7 @@ func TestPropBucketDelete(t *testing.T) {
 	rec.Assume("predicates restricted to definite semantics: tag = \"non-empty value\" (false for series that lack the tag, as tsm1/predicate.go documents), _measurement = \"m\", AND; no !=, no regex, no empty values, no measurement names containing '='")
 	rec.Assume("each shard is kept at <= 8 TSM files per key (unrelated finding keycursor-cyclic-block-order) and no delete runs inside a held snapshot window (finding delete-during-snapshot-window, C03)")
 	rec.Assume("delete ranges satisfy models.MinNanoTime <= min <= max <= models.MaxNanoTime (the HTTP handler validates the two ends; min > max is not issued)")
-	rec.Check(t, 80, 1500, func(t *rapid.T) {
+	rec.CheckSteps(t, 70, 1500, 14, func(t *rapid.T) {
 		hours := rapid.IntRange(2, 4).Draw(t, "hours")
 		// active series: 4..8 of the domain; the '!' series takes part in about a quarter of the cases
 		nser := rapid.IntRange(4, 8).Draw(t, "nser")
@@ -1052,11 +1051,15 @@ func replay(hours int, series []string, ops []op, verbose bool) (*finding, error
 	return nil, nil
 }
 
-// TestReplay re-executes a dumped history (C17_REPLAY=<file written via C17_DUMP>).
+// TestReplay re-executes a dumped history (C17_REPLAY or VERIF_REPLAY = <file written via C17_DUMP=file
+// on a failing run>; `./check C17 --replay file.json` uses it).
 func TestReplay(t *testing.T) {
 	f := os.Getenv("C17_REPLAY")
 	if f == "" {
-		t.Skip("C17_REPLAY not set")
+		f = os.Getenv("VERIF_REPLAY")
+	}
+	if f == "" {
+		t.Skip("C17_REPLAY / VERIF_REPLAY not set")
 	}
 	b, err := os.ReadFile(f)
 	if err != nil {
